@@ -26,7 +26,7 @@ func init() {
 			ruleL1(c)
 			ruleL2(c)
 		},
-		explanation: "Decides the ownership-ledger discipline behind conflict detection: every write of a plugin-supplied value into the reply accumulator, the request view or the staged update copy is dominated by the success edge of a claim (or by a claim-all loop over the collection written); claim functions and items are in bijection across all merge functions; every claim is exclusive (stores the owner only into an empty slot, otherwise returns the non-nil conflict error) and uses a slot of its own; the ledger is created once per result and persisted on the miss path; every error of the merge family is tested and returned up to the exported request methods, which return (nil, err); claims are keyed by the target container's id and by the key field of the element written; claims are controlled by the plugin's own response; all of this runs under the adaptation lock with a per-request result that does not escape.",
+		explanation: "Decides the ownership-ledger discipline behind conflict detection: every write of a plugin-supplied value into the reply accumulator, the request view or the staged update copy is dominated by the success edge of a claim (or by a claim-all loop over the collection written); claim functions and items are in bijection across all merge functions; every claim is exclusive (stores the owner only into an empty slot, otherwise returns the non-nil conflict error) and uses a slot of its own; the ledger is created once per result and persisted on the miss path; every error of the merge family is tested and returned up to the exported request methods, which return (nil, err); claims are keyed by the target container's id and by the key field of the element written; claims are controlled by the plugin's own response; all of this runs under the adaptation lock with a per-request result that does not escape. The key of every keyed claim is known not to be a removal marker where the claim runs.",
 		notDecided: []string{
 			"that the set of owned items is the set a runtime cares about",
 			"string equality semantics of keys (e.g. un-normalised mount paths)",
